@@ -10,6 +10,7 @@ from __future__ import annotations
 import itertools
 
 from .. import api, engine
+from .. import histories as H
 
 ID = "C11"
 LEVEL = "exploration"
@@ -108,6 +109,7 @@ def plan(tier):
     shards += [{"kind": "port-values", "part": p, "parts": 4} for p in range(4)]
     if tier != "quick":
         shards += [{"kind": "triples", "part": p, "parts": 128} for p in range(128)]
+    shards += H.plan_shards(['minor-versions'])
     return shards
 
 
@@ -125,6 +127,9 @@ def chain_symbols():
 
 
 def cases(shard, tier):
+    if shard.get("kind") == "call-histories":
+        yield from H.cases_of(shard)
+        return
     if shard["kind"] == "chains":
         i = 0
         for combo in itertools.product(*chain_symbols()):
@@ -242,6 +247,8 @@ def cross_chain(direct, transitive):
 
 
 def check_case(case, R: engine.Acc):
+    if case.get("kind") == "call-history":
+        return H.check_history(case["label"], R, H.project_verdict, 'verdict-depends-on-earlier-calls', 'the cross-definition rules are applied to exactly the definitions read in THIS call')
     if "chain_lookup_mask" in case:
         return check_chain(case, R)
     S = case["symbols"]
